@@ -1,5 +1,5 @@
 """C07 -- content the model does not use has no effect on any result."""
-from symx import And, Or, Not, Implies, eq, SStr, SInt, SReal
+from symx import And, Or, Not, Implies, eq, SStr, SInt, SReal, SBool
 from symx.sstr import mk, as_els
 from symx.runner import Obligation
 from . import common as H
@@ -78,6 +78,37 @@ def o_columns(ctx):
         ctx.claim('field-independent:' + f, not isinstance(v, (SStr, SReal)) and v == getattr(ref, f),
                   detail='%s = %r (reference %r)' % (f, v, getattr(ref, f)))
     ctx.claim('serial-goes-to-numb-only', isinstance(a.numb, (int, SInt)))
+
+
+def o_element_from_name_columns(ctx):
+    """hydrogens are recognised (and stripped) by the element inferred from the atom-name columns 13-16:
+    every spelling of a hydrogen -- ' H  ', ' HB2', '1HB ', 'HH11', '1HH1', '2HD2' -- must give 'H',
+    and heavy atoms must not; the four name characters are symbolic over a small alphabet"""
+    import propka.atom as A
+    from symx.sstr import mk, as_els
+    els = list(as_els(H.pdb_line(1, 'CA', 'ARG', 'A', 10, 1.0, 2.0, 3.0)))
+    c0 = ctx.string('n0', 1, ' 12HCNO')
+    c1 = ctx.string('n1', 1, 'HCNOA')
+    c2 = ctx.string('n2', 1, ' 12ABHDE')
+    c3 = ctx.string('n3', 1, ' 12AB')
+    for col, c in zip((12, 13, 14, 15), (c0, c1, c2, c3)):
+        els[col] = as_els(c)[0]
+    # names are left- or right-justified without inner blanks
+    ctx.assume(Implies(c2 == ' ', c3 == ' '))
+    a = A.Atom(line=mk(els))
+    el = a.element
+    first_is_letter = Or(c0 == 'H', c0 == 'C', c0 == 'N', c0 == 'O')
+    # PDB convention: the element symbol is right-justified in columns 13-14
+    hyd = Or(And(Not(first_is_letter), c1 == 'H'),                      # ' H..', '1H..', '2H..'
+             And(c0 == 'H', c2 != ' ', c3 != ' '))                        # four-character names starting with H: 'HH11', 'HD21', ...
+    if isinstance(el, str):
+        got_h = (el == 'H')
+    else:
+        got_h = (el == 'H')
+    ctx.claim('hydrogen-spellings-give-H', Implies(hyd, got_h), detail='element %r' % (el,))
+    heavy_one_letter = And(Not(first_is_letter), Or(c1 == 'C', c1 == 'N', c1 == 'O'))
+    for sym in 'CNO':
+        ctx.claim('heavy-atoms-keep-their-element', Implies(And(Not(first_is_letter), c1 == sym), el == sym), detail='element %r' % (el,))
 
 
 def o_plumbing(ctx):
@@ -159,6 +190,9 @@ def obligations(tier):
                               bounds='amino-acid micro-structure %s under a symbolic grid translation t in [0,2.509] along y' % name,
                               claim_doc='every pKa and determinant identical between default and --protonate-all (any shift) and --keep-protons on the program\'s own hydrogens (same frame; within 0.01 in a shifted frame)',
                               max_paths=5000, wall_s=170 if tier == 'quick' else 1200))
+    obs.append(Obligation('O2-element-from-name-columns', o_element_from_name_columns, code=['propka/atom.py:Atom.set_properties'],
+                          bounds='the four atom-name characters symbolic over small alphabets (blank, digits 1-2, H C N O A B D E)',
+                          claim_doc='every PDB spelling of a hydrogen name yields element H (so that it is stripped); C/N/O in column 14 keep their element', max_paths=20000))
     obs.append(Obligation('O4-option-plumbing', o_plumbing, code=['propka/lib.py:build_parser', 'propka/lib.py:loadOptions', I + 'read_pdb'],
                           bounds='5 command lines', kind='table-check'))
     return obs
